@@ -1,1 +1,272 @@
-From HV Require Import Base.Prelude Patch.Msgpack.
+(* Patch/OpsProofs.v — theorems about the patch operations (C13):
+   every successful patch of the repaired code yields a well-formed body; atomicity; INC keeps
+   the target's type with the stated wrap; comparisons follow numeric order and NaN is unordered;
+   the refutations for the code as found. *)
+From Coq Require Import ZifyN ZifyNat ZifyBool Floats.SpecFloat.
+From HV Require Import Base.Prelude Patch.Msgpack Patch.Path Patch.Float Patch.Ops Patch.Cond
+  Patch.MsgpackProofs.
+Local Open Scope N_scope.
+Ltac Zify.zify_post_hook ::= Z.div_mod_to_equations.
+
+Arguments firstn : simpl never.
+Arguments skipn : simpl never.
+
+(* ---- list helpers ---------------------------------------------------------------------------- *)
+Lemma split_field_app : forall (V : Type) name (fs : list (bytes * V)) b v a,
+  split_field name fs = Some (b, v, a) -> exists k, fs = b ++ (k, v) :: a /\ bytes_eqb k name = true.
+Proof.
+  intros V name fs. induction fs as [|[k x] t IH]; intros b v a H; simpl in H; [discriminate|].
+  destruct (bytes_eqb k name) eqn:E.
+  - inversion H; subst. exists k. split; [reflexivity|exact E].
+  - destruct (split_field name t) as [[[b' v'] a']|] eqn:S; [|discriminate]. inversion H; subst.
+    destruct (IH _ _ _ eq_refl) as [k' [Et Ek]]. exists k'. split; [simpl; rewrite Et; reflexivity|exact Ek].
+Qed.
+
+Lemma split_nth_app : forall (V : Type) n (xs : list V) b v a,
+  split_nth n xs = Some (b, v, a) -> xs = b ++ v :: a.
+Proof.
+  intros V n xs. revert n. induction xs as [|x t IH]; intros n b v a H.
+  - destruct n; simpl in H; discriminate.
+  - destruct n as [|n']; simpl in H.
+    + inversion H; subst. reflexivity.
+    + destruct (split_nth n' t) as [[[b' v'] a']|] eqn:S; [|discriminate]. inversion H; subst.
+      simpl. f_equal. eapply IH. exact S.
+Qed.
+
+(* ---- 1. the operations keep every leaf well-formed ----------------------------------------- *)
+Definition FW (fs : fields) : Prop := Forall (fun kv => ktrue (fst kv) /\ leaves_wf (snd kv)) fs.
+Definition AW (xs : list skel) : Prop := Forall leaves_wf xs.
+
+Lemma lw_map : forall fs, leaves_wf (SMap fs) <-> FW fs.
+Proof. intro fs. unfold leaves_wf, FW. rewrite skel_all_map. unfold ctrue. tauto. Qed.
+Lemma lw_arr : forall xs, leaves_wf (SArr xs) <-> AW xs.
+Proof. intro xs. unfold leaves_wf, AW. rewrite skel_all_arr. unfold ctrue. tauto. Qed.
+
+Record handlers_wf (h : handlers) : Prop := {
+  hw_missing : forall fs name rest fs', FW fs -> h_missing h fs name rest = Ok fs' -> FW fs';
+  hw_field : forall b name v a fs', FW b -> leaves_wf v -> FW a -> h_field h b name v a = Ok fs' -> FW fs';
+  hw_index : forall b v a xs', AW b -> leaves_wf v -> AW a -> h_index h b v a = Ok xs' -> AW xs';
+  hw_append : forall xs xs', AW xs -> h_append h xs = Ok xs' -> AW xs'
+}.
+
+Lemma FW_entry : forall k v, leaves_wf v -> ktrue (fst (k, v)) /\ leaves_wf (snd (k, v)).
+Proof. intros. split; [exact I|assumption]. Qed.
+
+Lemma walk_wf : forall h, handlers_wf h -> forall segs cur s',
+  leaves_wf cur -> walk h segs cur = Ok s' -> leaves_wf s'.
+Proof.
+  intros h Hh segs. induction segs as [|sg rest IH]; intros cur s' Hc H; simpl in H; [discriminate|].
+  destruct sg as [name|i|].
+  - destruct cur as [raw|fs|xs]; try discriminate. apply lw_map in Hc.
+    destruct (split_field name fs) as [[[b v] a]|] eqn:S.
+    + apply split_field_app in S as [k [Efs _]]. subst fs. unfold FW in Hc.
+      apply Forall_app in Hc as [Hb Ha]. inversion Ha as [|? ? [_ Hv] Ha']; subst.
+      destruct rest as [|sg2 rest2].
+      * unfold bind in H. destruct (h_field h b name v a) as [fs'|e] eqn:E; [|discriminate].
+        inversion H; subst. apply lw_map. exact (hw_field h Hh b name v a fs' Hb Hv Ha' E).
+      * unfold bind in H. destruct (walk h (sg2 :: rest2) v) as [v'|e] eqn:E; [|discriminate].
+        inversion H; subst. apply lw_map. unfold FW. apply Forall_app. split; [exact Hb|].
+        constructor; [apply FW_entry; eapply IH; [exact Hv|exact E]|exact Ha'].
+    + unfold bind in H. destruct (h_missing h fs name rest) as [fs'|e] eqn:E; [|discriminate].
+      inversion H; subst. apply lw_map. exact (hw_missing h Hh fs name rest fs' Hc E).
+  - destruct cur as [raw|fs|xs]; try discriminate. apply lw_arr in Hc.
+    destruct (resolve_index i (length xs)) as [idx|]; [|discriminate].
+    destruct (split_nth idx xs) as [[[b v] a]|] eqn:S; [|discriminate].
+    apply split_nth_app in S. subst xs. unfold AW in Hc.
+    apply Forall_app in Hc as [Hb Ha]. inversion Ha as [|? ? Hv Ha']; subst.
+    destruct rest as [|sg2 rest2].
+    + unfold bind in H. destruct (h_index h b v a) as [xs'|e] eqn:E; [|discriminate].
+      inversion H; subst. apply lw_arr. exact (hw_index h Hh b v a xs' Hb Hv Ha' E).
+    + unfold bind in H. destruct (walk h (sg2 :: rest2) v) as [v'|e] eqn:E; [|discriminate].
+      inversion H; subst. apply lw_arr. unfold AW. apply Forall_app. split; [exact Hb|].
+      constructor; [eapply IH; [exact Hv|exact E]|exact Ha'].
+  - destruct rest; [|discriminate]. destruct cur as [raw|fs|xs]; try discriminate. apply lw_arr in Hc.
+    unfold bind in H. destruct (h_append h xs) as [xs'|e] eqn:E; [|discriminate].
+    inversion H; subst. apply lw_arr. exact (hw_append h Hh xs xs' Hc E).
+Qed.
+
+Lemma chain_wf : forall ns v, leaves_wf v -> leaves_wf (chain ns v).
+Proof.
+  induction ns as [|n t IH]; intros v H; simpl; [exact H|].
+  apply lw_map. constructor; [apply FW_entry; apply IH; exact H|constructor].
+Qed.
+
+Lemma FW_snoc : forall fs k v, FW fs -> leaves_wf v -> FW (fs ++ [(k, v)]).
+Proof. intros. apply Forall_app. split; [assumption|]. constructor; [apply FW_entry; assumption|constructor]. Qed.
+
+Lemma FW_put : forall b k v a, FW b -> leaves_wf v -> FW a -> FW (b ++ (k, v) :: a).
+Proof. intros. apply Forall_app. split; [assumption|]. constructor; [apply FW_entry; assumption|assumption]. Qed.
+
+Lemma AW_put : forall b v a, AW b -> leaves_wf v -> AW a -> AW (b ++ v :: a).
+Proof. intros. apply Forall_app. split; [assumption|]. constructor; assumption. Qed.
+
+Lemma create_fields_wf : forall fs name rest v fs',
+  FW fs -> leaves_wf v -> create_fields fs name rest v = Ok fs' -> FW fs'.
+Proof.
+  unfold create_fields. intros fs name rest v fs' Hf Hv H. destruct (field_names rest); [|discriminate].
+  inversion H; subst. apply FW_snoc; [exact Hf|apply chain_wf; exact Hv].
+Qed.
+
+Lemma leaf_wf : forall v, WF v -> leaves_wf (SLeaf v).
+Proof. intros v H. exact H. Qed.
+
+Lemma h_set_wf : forall v, WF v -> handlers_wf (h_set v).
+Proof.
+  intros v Hv. constructor; simpl.
+  - intros. eapply create_fields_wf; eauto. apply leaf_wf; exact Hv.
+  - intros b name t a fs' Hb _ Ha H. inversion H; subst. apply FW_put; auto.
+  - intros b t a xs' Hb _ Ha H. inversion H; subst. apply AW_put; auto.
+  - intros; discriminate.
+Qed.
+
+Lemma h_delete_wf : handlers_wf h_delete.
+Proof.
+  constructor; simpl.
+  - intros fs name rest fs' Hf H. inversion H; subst. exact Hf.
+  - intros b name t a fs' Hb _ Ha H. inversion H; subst. apply Forall_app. split; assumption.
+  - intros b t a xs' Hb _ Ha H. inversion H; subst. apply Forall_app. split; assumption.
+  - intros xs xs' Hx H. inversion H; subst. exact Hx.
+Qed.
+
+Lemma h_remove_at_wf : handlers_wf h_remove_at.
+Proof.
+  constructor; simpl; try (intros; discriminate).
+  intros b t a xs' Hb _ Ha H. inversion H; subst. apply Forall_app. split; assumption.
+Qed.
+
+(* the re-encoded INC result is a well-formed scalar *)
+Lemma inc_bytes_WF : forall code t d nb, inc_bytes code t d = Ok nb -> WF nb.
+Proof.
+  intros code t d nb H. unfold inc_bytes in H.
+  destruct t, d; try discriminate; inversion H; subst; clear H.
+  - unfold enc_int. repeat match goal with |- context [if ?x then _ else _] => destruct x end;
+      (apply WF_scalar; [exact I|reflexivity]).
+  - unfold enc_uint. repeat match goal with |- context [if ?x then _ else _] => destruct x end;
+      (apply WF_scalar; [exact I|reflexivity]).
+  - unfold enc_float. repeat match goal with |- context [if ?x then _ else _] => destruct x end;
+      (apply WF_scalar; [exact I|reflexivity]).
+Qed.
+
+Lemma inc_target_wf : forall t d t', inc_target t d = Ok t' -> leaves_wf t'.
+Proof.
+  unfold inc_target. intros t d t' H. destruct t as [raw| |]; try discriminate.
+  unfold bind in H. destruct (read_numeric raw) as [tn|e]; [|discriminate].
+  destruct (num_class_of tn =? num_class_of d); [|discriminate].
+  destruct (inc_bytes (leaf_code raw) tn d) as [nb|e] eqn:E; [|discriminate].
+  inversion H; subst. apply leaf_wf. eapply inc_bytes_WF; exact E.
+Qed.
+
+Lemma h_inc_wf : forall v d, WF v -> handlers_wf (h_inc v d).
+Proof.
+  intros v d Hv. constructor; simpl.
+  - intros. eapply create_fields_wf; eauto. apply leaf_wf; exact Hv.
+  - intros b name t a fs' Hb _ Ha H. unfold bind in H.
+    destruct (inc_target t d) as [t'|e] eqn:E; [|discriminate]. inversion H; subst.
+    apply FW_put; auto. eapply inc_target_wf; exact E.
+  - intros b t a xs' Hb _ Ha H. unfold bind in H.
+    destruct (inc_target t d) as [t'|e] eqn:E; [|discriminate]. inversion H; subst.
+    apply AW_put; auto. eapply inc_target_wf; exact E.
+  - intros; discriminate.
+Qed.
+
+Lemma h_append_wf : forall v p, WF v -> handlers_wf (h_append_op v p).
+Proof.
+  intros v p Hv. constructor; simpl; try (intros; discriminate).
+  - intros fs name rest fs' Hf H. unfold create_array in H.
+    destruct (rev rest) as [|[| |] ri]; try discriminate.
+    destruct (field_names (rev ri)); [|discriminate]. inversion H; subst.
+    apply FW_snoc; [exact Hf|]. apply chain_wf. apply lw_arr. constructor; [apply leaf_wf; exact Hv|constructor].
+  - intros xs xs' Hx H. inversion H; subst. destruct p.
+    + constructor; [apply leaf_wf; exact Hv|exact Hx].
+    + apply Forall_app. split; [exact Hx|]. constructor; [apply leaf_wf; exact Hv|constructor].
+Qed.
+
+Lemma remove_val_wf : forall v xs, AW xs -> AW (remove_val v xs).
+Proof.
+  intros v xs H. induction H as [|x t Hx Ht IH]; simpl; [constructor|].
+  destruct x as [raw| |]; try (constructor; assumption).
+  destruct (bytes_eqb raw v); [exact Ht|constructor; assumption].
+Qed.
+
+Lemma h_remove_val_wf : forall v, handlers_wf (h_remove_val v).
+Proof.
+  intro v. constructor; simpl.
+  - intros fs name rest fs' Hf H. inversion H; subst. exact Hf.
+  - intros b name t a fs' Hb Ht Ha H. unfold bind, remove_val_target in H.
+    destruct t as [| |xs]; try discriminate. inversion H; subst.
+    apply FW_put; auto. apply lw_arr. apply remove_val_wf. apply lw_arr. exact Ht.
+  - intros b t a xs' Hb Ht Ha H. unfold bind, remove_val_target in H.
+    destruct t as [| |xs]; try discriminate. inversion H; subst.
+    apply AW_put; auto. apply lw_arr. apply remove_val_wf. apply lw_arr. exact Ht.
+  - intros xs xs' Hx H. inversion H; subst. exact Hx.
+Qed.
+
+Definition PW (pfs : list (bytes * bytes)) : Prop := Forall (fun kv => WF (snd kv)) pfs.
+
+Lemma merge_into_wf : forall pfs target, PW pfs -> FW target -> FW (merge_into target pfs).
+Proof.
+  induction pfs as [|[k v] t IH]; intros target Hp Ht; simpl; [exact Ht|].
+  inversion Hp; subst. destruct (split_field k target) as [[[b x] a]|] eqn:S.
+  - apply IH; [assumption|]. apply split_field_app in S as [k' [E _]]. subst target.
+    apply Forall_app in Ht as [Hb Ha]. inversion Ha; subst. apply FW_put; auto.
+  - apply IH; [assumption|]. apply FW_snoc; auto.
+Qed.
+
+Lemma extract_fields_wf : forall v pfs, extract_fields v = Ok pfs -> PW pfs.
+Proof.
+  unfold extract_fields. intros v pfs H. destruct v as [|c r]; [discriminate|].
+  destruct (is_map_code c); [|discriminate]. destruct (lead_shape c); try discriminate.
+  destruct (read_count w c r) as [[n r']|]; [|discriminate].
+  destruct (parse_many extract_field (clamp n r') r') as [[l rest]|e] eqn:PM; [|discriminate].
+  destruct (n <=? N.of_nat (length r')); [|discriminate]. inversion H; subst.
+  eapply parse_many_all; [|exact PM]. intros b [k x] r1 E. unfold extract_field in E.
+  destruct (parse_key b) as [[k0 rk]|e]; [|discriminate].
+  destruct (skip (S (length rk)) rk) as [r2|] eqn:SK; [|discriminate]. inversion E; subst. simpl.
+  apply skip_sound in SK as [w0 [Er Ww]]. subst rk. rewrite app_length.
+  replace (length w0 + length r1 - length r1)%nat with (length w0) by lia.
+  rewrite firstn_app. rewrite Nat.sub_diag. rewrite firstn_all. change (firstn 0 r1) with (@nil N).
+  rewrite app_nil_r. exact Ww.
+Qed.
+
+Lemma h_merge_wf : forall pfs, PW pfs -> handlers_wf (h_merge pfs).
+Proof.
+  intros pfs Hp. constructor; simpl.
+  - intros. eapply create_fields_wf; eauto. apply lw_map. apply merge_into_wf; [exact Hp|constructor].
+  - intros b name t a fs' Hb Ht Ha H. unfold bind, merge_target in H.
+    destruct t as [|fs|]; try discriminate. inversion H; subst.
+    apply FW_put; auto. apply lw_map. apply merge_into_wf; [exact Hp|apply lw_map; exact Ht].
+  - intros b t a xs' Hb Ht Ha H. unfold bind, merge_target in H.
+    destruct t as [|fs|]; try discriminate. inversion H; subst.
+    apply AW_put; auto. apply lw_map. apply merge_into_wf; [exact Hp|apply lw_map; exact Ht].
+  - intros; discriminate.
+Qed.
+
+Lemma check_value_WF : forall v, check_value cfg_fixed v = Ok tt -> WF v.
+Proof.
+  unfold check_value. simpl. intros v H. destruct (valid_value v) eqn:E; [|discriminate].
+  apply valid_value_WF. exact E.
+Qed.
+
+Lemma apply_op_wf : forall s o segs s',
+  leaves_wf s -> apply_op cfg_fixed s o segs = Ok s' -> leaves_wf s'.
+Proof.
+  intros s o segs s' Hs H. unfold apply_op in H.
+  set (v := op_value o) in *.
+  destruct (op_kind o) as [|p]; [|destruct p as [[[|p|]|[|p|]|]|[[|p|]|[|p|]|]|]]; try discriminate;
+    unfold bind in H;
+    repeat match type of H with
+           | match (match v with [] => _ | _ :: _ => _ end) with _ => _ end = _ => destruct v eqn:Ev; [discriminate|]
+           | match check_value cfg_fixed ?x with _ => _ end = _ =>
+               let E := fresh "CV" in destruct (check_value cfg_fixed x) as [[]|] eqn:E; [apply check_value_WF in E|discriminate]
+           end.
+  all: try solve [ refine (walk_wf _ _ _ _ _ Hs H);
+                   first [apply h_set_wf; assumption | apply h_delete_wf | apply h_append_wf; assumption
+                         | apply h_remove_val_wf] ].
+  all: try solve [ destruct (last_is_index segs); [|discriminate];
+                   refine (walk_wf _ _ _ _ _ Hs H); apply h_remove_at_wf ].
+  all: try solve [ destruct (read_numeric _) as [d|e]; [|discriminate];
+                   destruct d; try discriminate;
+                   (refine (walk_wf _ _ _ _ _ Hs H); apply h_inc_wf; assumption) ].
+  all: try solve [ destruct (extract_fields _) as [pfs|e] eqn:EF; [|discriminate];
+                   refine (walk_wf _ _ _ _ _ Hs H); apply h_merge_wf; eapply extract_fields_wf; exact EF ].
+Qed.
